@@ -10,10 +10,26 @@ write is under the lock and only when the field was nil; w2: a critical section
 leaves the field set; r: reads outside the lock come after the thread's own
 critical section), for which LC/Props/C09 proves: no data race, at most one
 write, all readers see the same set — for every number of threads and every
-interleaving.  Everything outside that skeleton (the matcher's own mutex and
-queue, nearestMatch, the Go memory model) is monitored by the race detector only.
+interleaving.
+
+Second part (`LC.RW`): the map `values` itself, guarded by the readers-writer
+lock `muValues`.  The skeleton of EVERY function and goroutine literal of the
+package that mentions `values` or `muValues` is regenerated from the AST
+(`LC.Gen.V1Locks.functions`: AddValue, AddPrecomputedValue, nearestMatch,
+multipleMatch and its goroutine) and must be accepted by the static checker
+`LC.RW.accepts` (`values_skeletons_accepted`, by kernel evaluation): reads under
+RLock or Lock, writes under Lock, releases on every path incl. early returns and
+deferred unlocks, the map never escapes its lock region.  `accepted_calls_ok`:
+every execution path of an accepted skeleton is a well-locked action sequence;
+`rw_no_race`: threads that run such sequences, in any number and any interleaving
+the readers-writer lock allows, never race on the location.  What stays outside:
+the matcher's own mutex and queue, the Go memory model beyond the sync.RWMutex
+edges, and the faithfulness of the extractor — monitored by the race detector.
 -/
 import LC.Gen.V1Protocol
+import LC.Gen.V1Locks
+import LC.Model.RW
+import LC.Proofs.RW
 import LC.Props.C09
 
 namespace LC.Conc
@@ -44,3 +60,49 @@ theorem two_thread_instance :
   protocol_no_race (fun _ => 0) _ 7 nonvacuous_example
 
 end LC.Conc
+
+namespace LC.RW
+
+/-- The functions that touch `values`, as they are now, keep the lock discipline. -/
+theorem values_skeletons_accepted : ∀ f ∈ LC.Gen.V1Locks.functions, accepts f.2 = true := by decide
+
+/-- There is something to check: the extractor found the four functions and the goroutine. -/
+theorem values_skeletons_present :
+    LC.Gen.V1Locks.functions.map (·.1) =
+      ["AddValue", "AddPrecomputedValue", "nearestMatch", "multipleMatch", "multipleMatch.go0"] := by decide
+
+/-- Soundness of the checker: whatever path a call of an accepted function takes (branches either
+way, loops any number of times, early returns, deferred releases), its actions are well locked. -/
+theorem accepted_calls_ok (b : Blk) (h : accepts b = true) (acts : List Act) (hc : CallActs b acts) :
+    ThreadOK acts :=
+  accepted_calls_ok' b h acts hc
+
+/-- calls one after another; and everything a thread has done so far is a prefix of such a program -/
+theorem threadOK_append (a b : List Act) (ha : ThreadOK a) (hb : ThreadOK b) : ThreadOK (a ++ b) :=
+  threadOK_append' a b ha hb
+
+theorem prefixOK_of_threadOK (a b : List Act) (h : ThreadOK (a ++ b)) : PrefixOK a :=
+  prefixOK_of_threadOK' a b h
+
+/-- No data race on the location, for every number of threads and every interleaving the
+readers-writer lock allows, as long as every thread's actions so far are well locked. -/
+theorem rw_no_race (tr : Trace) (hl : rwOK tr none [] = true) (ht : ∀ t, PrefixOK (proj tr t)) :
+    ¬ Race tr :=
+  rw_no_race' tr hl ht
+
+/-- The shape of a seeded change (the map header copied out under the read lock, iterated after
+the release) is rejected … -/
+example : accepts (.cons (.s (.a .rlock)) (.cons (.s .alias) (.cons (.s (.a .runlock))
+    (.cons (.loop (.cons (.s (.a .rd)) .nil)) .nil)))) = false := by decide
+
+/-- … and so is an early return that forgets the release, a write under the read lock, and a
+`continue` that leaks the lock. -/
+example : accepts (.cons (.s (.a .rlock)) (.cons (.opt (.cons (.s .ret) .nil)) (.cons (.s (.a .runlock)) .nil))) = false := by decide
+example : accepts (.cons (.s (.a .rlock)) (.cons (.s (.a .wr)) (.cons (.s (.a .runlock)) .nil))) = false := by decide
+example : accepts (.cons (.loop (.cons (.s (.a .lock)) (.cons (.opt (.cons (.s .jump) .nil)) (.cons (.s (.a .unlock)) .nil)))) .nil) = false := by decide
+
+/-- the hypotheses of `rw_no_race` are satisfiable by a trace with a writer and two readers -/
+example : rwOK [⟨0, .lock⟩, ⟨0, .rd⟩, ⟨0, .wr⟩, ⟨0, .unlock⟩, ⟨1, .rlock⟩, ⟨2, .rlock⟩, ⟨1, .rd⟩, ⟨2, .rd⟩,
+    ⟨2, .runlock⟩, ⟨1, .runlock⟩, ⟨2, .lock⟩, ⟨2, .wr⟩] none [] = true := by decide
+
+end LC.RW
